@@ -9,6 +9,7 @@ CONSTANTS
   Ops = {"create", "attr", "time"}
   Faults = {"NoneType"}
   Script <- NoScript
+  CopyKeep = {}
 VIEW View
 INVARIANT TypeOK
 INVARIANT NameUnique
